@@ -23,6 +23,7 @@ import (
 	"time"
 
 	"github.com/codenotary/immudb/embedded/logger"
+	"github.com/codenotary/immudb/embedded/simhook"
 	"github.com/codenotary/immudb/embedded/store"
 	"github.com/codenotary/immudb/pkg/database"
 )
@@ -82,6 +83,10 @@ func (t *Truncator) Start() error {
 	t.logger.Infof("starting truncator for database '%s' with retention period '%vs' and truncation frequency '%vs'", t.db.GetName(), t.retentionPeriod.Seconds(), t.truncationFrequency.Seconds())
 
 	go func() {
+		if simhook.Enabled {
+			simhook.GoStart("truncator:" + t.db.GetName())
+			defer simhook.GoEnd()
+		}
 		ticker := time.NewTicker(t.truncationFrequency)
 
 		for {
@@ -91,6 +96,9 @@ func (t *Truncator) Start() error {
 				t.donech <- struct{}{}
 				return
 			case <-ticker.C:
+				if simhook.Enabled {
+					simhook.Yield("truncator-tick")
+				}
 				err := t.Truncate(context.Background(), t.retentionPeriod)
 				if err != nil {
 					t.logger.Errorf("failed to truncate database '%s' {ts = %v}", t.db.GetName(), err)
